@@ -38,13 +38,13 @@ V('c18-no-wait-for-transfers', ['C18'], 'manager.py', """            self._coord
 V('c18-manager-keeps-last-future', ['C18'], 'manager.py', """        # Increment the unique id counter for future transfer requests
         self._id_counter += 1""", """        # Increment the unique id counter for future transfer requests
         self._id_counter += 1
-        self._last_components = components""", ['C18.c'])
-V('c18-upload-no-copy', ['C18'], 'manager.py', 'extra_args = extra_args.copy() if extra_args else {}', 'extra_args = extra_args if extra_args else {}', ['C18.c'])
+        self._last_components = components""", ['C18.c', 'C18.u'])
+V('c18-upload-no-copy', ['C18'], 'manager.py', 'extra_args = extra_args.copy() if extra_args else {}', 'extra_args = extra_args if extra_args else {}', ['C18.c', 'C18.u'])
 V('c18-class-level-list-mutated', ['C18', 'C15'], 'upload.py', """        extra_part_args = self._extra_upload_part_args(call_args.extra_args)
 """, """        extra_part_args = self._extra_upload_part_args(call_args.extra_args)
         if 'ContentMD5' in call_args.extra_args:
             self.UPLOAD_PART_ARGS.append('ContentMD5')
-""", ['C18.c'])
+""", ['C18.c', 'C18.u'])
 V('c18-untracked-before-start', ['C18'], 'manager.py', """        self._coordinator_controller.add_transfer_coordinator(
             transfer_coordinator
         )
@@ -52,7 +52,7 @@ V('c18-untracked-before-start', ['C18'], 'manager.py', """        self._coordina
 V('c18-download-mutates-user-args', ['C18'], 'download.py', """        if transfer_future.meta.size < config.multipart_threshold:
             self._submit_download_request(""", """        transfer_future.meta.call_args.extra_args.setdefault('ChecksumMode', 'ENABLED')
         if transfer_future.meta.size < config.multipart_threshold:
-            self._submit_download_request(""", ['C18.c'])
+            self._submit_download_request(""", ['C18.c', 'C18.u'])
 
 # ---- C12 ---------------------------------------------------------------
 V('c12-release-mutates-before-reject', ['C12'], 'utils.py', """            max_sequence = self._tag_sequences[tag]
